@@ -4,9 +4,12 @@ import (
 	"fmt"
 	"os"
 	"sort"
+	"strings"
 
+	"github.com/NVIDIA/KAI-scheduler/pkg/scheduler/actions/utils"
 	"github.com/NVIDIA/KAI-scheduler/pkg/scheduler/api/common_info"
 	"github.com/NVIDIA/KAI-scheduler/pkg/scheduler/api/pod_status"
+	"github.com/NVIDIA/KAI-scheduler/pkg/scheduler/framework"
 
 	"kaiverif/internal/core"
 	"kaiverif/internal/cycle"
@@ -33,7 +36,16 @@ type progSpec struct {
 	gpus    int64  // per node
 	hog     string // node whose CPU is exhausted by a non-preemptible CPU-only pod of qa: the pending pods
 	// (500*(g+1) mCPU, the running ones 500 each) cannot run there, its pods are no eligible victims
+	depts map[string]string // leaf queue -> department (nil: all under the one department of cycle.Build)
+	shape string            // multi-queue preempt clusters: which queue roles were generated
+	// corpus: the replayed witness of known finding C05-signature-shortcut; the label carries the
+	// witness tag only when the run shows that explanation (see sigWitness)
+	wit *sigWitness
 }
+
+// sigWitness names the pending job that known finding C05-signature-shortcut says is starved
+// (skipped) and the job of the SAME queue whose failure is the representative it is compared with.
+type sigWitness struct{ rep, skipped, why string }
 
 const nodeCPU = 16000
 
@@ -172,12 +184,201 @@ func genPreempt(r *u.Rng, sigs bool) progSpec {
 	return ps
 }
 
+// genPreemptMulti: two or three leaf queues (one department / one each / mixed), every pending pod
+// of the same shape (one scheduling signature for the whole cluster), the cluster saturated by
+// running unit pods. Per queue a role: "victim" (runs a preemptible pod of strictly lower priority
+// than its pending jobs), "blocked" (no such pod, or non-preemptible pending jobs over a zero
+// quota), "idle" (no pending job) or "mixed". Queue priorities, creation order (= list order),
+// deserved quotas and usage vary, so either kind of queue may be served first. With signatures on
+// the pending jobs of ONE queue share one priority (inside one queue the shortcut is then sound:
+// C05_signature_shortcut_sound_partial); different queues differ.
+func genPreemptMulti(r *u.Rng, sigs bool) progSpec {
+	n := r.Range(1, 3)
+	g := int64(u.Pick(r, []int{1, 2, 2, 4}))
+	if int64(n)*g < 2 {
+		n = 2
+	}
+	total := n * int(g)
+	var c cycle.Cluster
+	for i := 0; i < n; i++ {
+		c.Nodes = append(c.Nodes, core.NodeSpec{Name: fmt.Sprintf("n%d", i+1), Cpu: nodeCPU, Mem: 64 << 30, Gpus: g, Pods: 110})
+	}
+	nq := 2
+	if total >= 3 && r.Chance(2, 5) {
+		nq = 3
+	}
+	names := []string{"qa", "qb", "qc"}[:nq]
+	roles := make([]string, nq)
+	for i := range roles {
+		roles[i] = u.Pick(r, []string{"victim", "blocked", "blocked", "mixed", "idle"})
+	}
+	if r.Chance(3, 4) { // the shape the per-queue representatives matter for
+		roles[0], roles[1] = "blocked", "victim"
+	}
+	depts := map[string]string{}
+	mode := u.Pick(r, []string{"same", "same", "each", "split"})
+	for i, q := range names {
+		switch mode {
+		case "same":
+			depts[q] = "d1"
+		case "each":
+			depts[q] = fmt.Sprintf("d%d", i+1)
+		default:
+			depts[q] = u.Pick(r, []string{"d1", "d2"})
+		}
+	}
+	// running units: every queue with pending jobs runs at least one pod when there is room
+	owners := make([]int, total)
+	for i := range owners {
+		if i < nq {
+			owners[i] = i
+		} else {
+			owners[i] = r.Intn(nq)
+		}
+	}
+	u.Shuffle(r, owners)
+	pendPrio := make([]int, nq)
+	for i := range pendPrio {
+		pendPrio[i] = u.Pick(r, []int{55, 75, 75, 90, 100, 125})
+	}
+	if r.Chance(1, 2) {
+		for i := range pendPrio {
+			pendPrio[i] = pendPrio[0] // the same priority everywhere: identical workloads in every queue
+		}
+	}
+	type qd struct {
+		q    cycle.Queue
+		role string
+		jobs []cycle.Job
+	}
+	qds := make([]qd, nq)
+	npBlocked := make([]bool, nq)
+	for i, q := range names {
+		npBlocked[i] = roles[i] == "blocked" && pendPrio[i] >= 100 && r.Bool()
+		des := r.Range(0, total)
+		if npBlocked[i] {
+			des = 0 // non-preemptible pending jobs over a zero quota: refused by the quota gate
+		} else if pendPrio[i] >= 100 && roles[i] == "victim" {
+			des = total
+		}
+		qds[i] = qd{q: cycle.Queue{Name: q, Deserved: float64(des), OverQuota: 1, Priority: u.Pick(r, []int{100, 100, 100, 50, 200})}, role: roles[i]}
+	}
+	for i, o := range owners {
+		node := c.Nodes[i/int(g)].Name
+		name := fmt.Sprintf("v%d", i+1)
+		pp := pendPrio[o]
+		var prio int
+		switch {
+		case roles[o] == "victim":
+			prio = u.Pick(r, []int{25, 50, 50, pp, 100})
+		case roles[o] == "blocked" && !npBlocked[o]:
+			prio = u.Pick(r, []int{pp, pp, pp + 5, 100, 150})
+		default:
+			prio = u.Pick(r, []int{25, 50, 50, 60, 80, 100})
+		}
+		qds[o].jobs = append(qds[o].jobs, cycle.Job{Name: name, Queue: names[o], Priority: int32(prio), MinMember: 1,
+			AgeMinutes: 60 + i, StartedMins: r.Range(5, 100), Pods: []core.PodSpec{unitPod(name+"-0", node, pod_status.Running)}})
+	}
+	for i := range qds {
+		if qds[i].role != "victim" {
+			continue
+		}
+		// at least one running pod of strictly lower priority, preemptible
+		ok := false
+		for _, j := range qds[i].jobs {
+			ok = ok || (int(j.Priority) < pendPrio[i] && j.Priority < 100)
+		}
+		if !ok && len(qds[i].jobs) > 0 {
+			qds[i].jobs[r.Intn(len(qds[i].jobs))].Priority = int32(u.Pick(r, []int{25, 50}))
+		}
+	}
+	np := 0
+	ages := []int{40, 38, 36, 34, 32, 30, 28, 26}
+	u.Shuffle(r, ages)
+	for i := range qds {
+		k := 0
+		switch qds[i].role {
+		case "idle":
+		case "mixed":
+			k = r.Range(0, 2)
+		default:
+			k = u.Pick(r, []int{1, 1, 2})
+		}
+		for x := 0; x < k && np < len(ages); x++ {
+			p := pendPrio[i]
+			if !sigs && r.Chance(1, 3) {
+				p = u.Pick(r, []int{55, 75, 90, 100, 125})
+			}
+			name := fmt.Sprintf("p%d", np+1)
+			qds[i].jobs = append(qds[i].jobs, cycle.Job{Name: name, Queue: names[i], Priority: int32(p), MinMember: 1, AgeMinutes: ages[np],
+				Pods: []core.PodSpec{pendingPod(name+"-0", g)}})
+			np++
+		}
+	}
+	// creation order of the queues = list order
+	order := make([]int, nq)
+	for i := range order {
+		order[i] = i
+	}
+	u.Shuffle(r, order)
+	var shape []string
+	for _, i := range order {
+		c.Queues = append(c.Queues, qds[i].q)
+		shape = append(shape, names[i]+"="+roles[i])
+	}
+	for i := range qds {
+		c.Jobs = append(c.Jobs, qds[i].jobs...)
+	}
+	sort.SliceStable(c.Jobs, func(a, b int) bool { return jobNum(c.Jobs[a].Name) < jobNum(c.Jobs[b].Name) })
+	c.Actions = []string{"allocate", "preempt"}
+	if r.Chance(1, 4) {
+		c.Actions = []string{"allocate", "consolidation", "preempt"}
+	}
+	ps := progSpec{kind: 2, cluster: c, gpus: g, depts: depts, shape: strings.Join(shape, ",")}
+	if hasQueue(c, "qa") {
+		addHog(r, &ps)
+	}
+	return ps
+}
+
+func hasQueue(c cycle.Cluster, q string) bool {
+	for _, x := range c.Queues {
+		if x.Name == q {
+			return true
+		}
+	}
+	return false
+}
+
+// jobNum orders v1.. before p1.. (running jobs first, as the other generators emit them)
+func jobNum(name string) int {
+	k := 0
+	fmt.Sscanf(name[1:], "%d", &k)
+	if name[0] == 'p' {
+		k += 1000
+	}
+	return k
+}
+
+// popOrder: the order in which the preempt / reclaim loop pops the pending jobs, read off the real
+// JobsOrderByQueues of the session (same options as the actions) in the state just before the action.
+func popOrder(ssn *framework.Session, action framework.ActionType) []string {
+	jo := utils.NewJobsOrderByQueues(ssn, utils.JobsOrderInitOptions{FilterNonPending: true, FilterUnready: true,
+		MaxJobsQueueDepth: ssn.GetJobsDepth(action)})
+	jo.InitializeWithJobs(ssn.ClusterInfo.PodGroupInfos)
+	var names []string
+	for !jo.IsEmpty() {
+		names = append(names, jo.PopNextJob().Name)
+	}
+	return names
+}
+
 // ProgCase runs the cycle and returns the KProg term. hide: pending jobs left
 // out of the class encoding (gangs of the minMember witness).
 func ProgCase(ps progSpec, cfg Config, tag string, hide map[string]bool) (term, label string, st map[string]int) {
 	st = map[string]int{}
 	c := ps.cluster
-	b, tr := Setup(c, cfg)
+	b, tr := SetupDepts(c, cfg, ps.depts)
 	ids := core.NewIds()
 	for _, n := range c.Nodes {
 		ids.Of("n:" + n.Name)
@@ -221,9 +422,19 @@ func ProgCase(ps progSpec, cfg Config, tag string, hide map[string]bool) (term, 
 			}
 		}
 	}
-	if pmsg := cycle.RunActions(b, c.Actions); pmsg != "" {
-		st["PANIC"]++
-		fmt.Fprintf(os.Stderr, "PANIC in actions: %s\n  cluster: %s\n", pmsg, cycle.Describe(c))
+	// the actions one by one; the pop order of the pending jobs is read off the session right
+	// before the last action (the one under test). In the class it cannot change while that action
+	// runs when the action is preempt (victim and preemptor share the queue: shares are unchanged).
+	var popped []string
+	for ai, a := range c.Actions {
+		if ai == len(c.Actions)-1 && ps.kind == 2 {
+			popped = popOrder(b.Ssn, framework.Preempt)
+		}
+		if pmsg := cycle.RunActions(b, []string{a}); pmsg != "" {
+			st["PANIC"]++
+			fmt.Fprintf(os.Stderr, "PANIC in actions: %s\n  cluster: %s\n", pmsg, cycle.Describe(c))
+			break
+		}
 	}
 	tr.Finish(b)
 	calls := b.Rec.Calls()
@@ -280,6 +491,20 @@ func ProgCase(ps progSpec, cfg Config, tag string, hide map[string]bool) (term, 
 		}
 		return pend[a].AgeMinutes > pend[b].AgeMinutes
 	})
+	// preempt: the real pop order across the queues (a job the real order does not list goes last)
+	if ps.kind == 2 {
+		pos := map[string]int{}
+		for i, n := range popped {
+			pos[n] = i + 1
+		}
+		for _, j := range pend {
+			if pos[j.Name] == 0 {
+				st["pending-not-in-pop-order"]++
+				pos[j.Name] = len(popped) + 1
+			}
+		}
+		sort.SliceStable(pend, func(a, b int) bool { return pos[pend[a].Name] < pos[pend[b].Name] })
+	}
 	for _, j := range pend {
 		pending = append(pending, fmt.Sprintf("(mkPJ %s %s %s %s %s)", u.Pos(ids.Of("j:"+j.Name)), u.Pos(ids.Of("q:"+j.Queue)),
 			u.Z(int64(j.Priority)), u.Bool(preemptible(j)), u.Pos(7)))
@@ -295,7 +520,80 @@ func ProgCase(ps progSpec, cfg Config, tag string, hide map[string]bool) (term, 
 		hog = " cpu-hog=" + ps.hog
 		st["prog-with-hog"]++
 	}
-	label = fmt.Sprintf("prog %s %s%s%s %s => %s", kind, tag, cfg, hog, cycle.Describe(c), describeCalls(calls))
+	// who was served (Evict with it as preemptor and TaskPipelined of its pod)
+	evFor, piped := map[string]bool{}, map[string]bool{}
+	for _, cl := range calls {
+		switch cl.Kind {
+		case "evict":
+			evFor[cl.Preemptor] = true
+		case "pipe":
+			piped[jobOfPod[cl.Pod]] = true
+		}
+	}
+	servedJob := func(n string) bool { return evFor[n] && piped[n] }
+	if w := ps.wit; w != nil {
+		// known finding C05-signature-shortcut explains a starved job only by a failed job of ITS OWN
+		// queue popped before it in the same action; the tag is written only when the run shows that
+		pos := map[string]int{}
+		for i, n := range popped {
+			pos[n] = i + 1
+		}
+		rq, sq := jobs[w.rep].Queue, jobs[w.skipped].Queue
+		if cfg.Sigs && rq == sq && pos[w.rep] > 0 && pos[w.rep] < pos[w.skipped] && !servedJob(w.rep) && !servedJob(w.skipped) {
+			tag += fmt.Sprintf("witness=sig-shortcut(own-queue representative %s@%s failed before %s@%s: %s) ", w.rep, rq, w.skipped, sq, w.why)
+		} else {
+			tag += fmt.Sprintf("corpus=sig-shortcut-not-shown(%s) ", w.why)
+		}
+	}
+	multi := ""
+	if ps.depts != nil || len(c.Queues) > 1 && ps.kind == 2 {
+		var qs []string
+		for _, q := range c.Queues {
+			d := ps.depts[q.Name]
+			if d == "" {
+				d = "dept"
+			}
+			qs = append(qs, fmt.Sprintf("%s(dept=%s,prio=%d)", q.Name, d, q.Priority))
+		}
+		multi = fmt.Sprintf(" queues-in-creation-order[%s]", strings.Join(qs, " "))
+		if ps.shape != "" {
+			multi += " roles[" + ps.shape + "]"
+		}
+		// the queues in the order of their first pop, and the first job served of a queue whose
+		// earlier-popped queues all failed: what the per-queue representatives are about
+		var qorder []string
+		seenQ := map[string]bool{}
+		for _, n := range popped {
+			if q := jobs[n].Queue; !seenQ[q] {
+				seenQ[q] = true
+				qorder = append(qorder, q)
+			}
+		}
+		st[fmt.Sprintf("multi-queue:%d", len(c.Queues))]++
+		if len(qorder) >= 2 {
+			st["multi-queue:pending-in>=2-queues"]++
+			// a job served although a job of ANOTHER queue (same pod shape) failed before it
+			failedQ := map[string]bool{}
+		scan:
+			for _, n := range popped {
+				if !servedJob(n) {
+					failedQ[jobs[n].Queue] = true
+					continue
+				}
+				for q := range failedQ {
+					if q != jobs[n].Queue {
+						st[fmt.Sprintf("multi-queue:served-after-failure-in-another-queue,sigs=%v", cfg.Sigs)]++
+						break scan
+					}
+				}
+			}
+		}
+	}
+	pop := ""
+	if ps.kind == 2 {
+		pop = fmt.Sprintf(" pop-order%v", popped)
+	}
+	label = fmt.Sprintf("prog %s %s%s%s%s%s %s => %s", kind, tag, cfg, hog, multi, pop, cycle.Describe(c), describeCalls(calls))
 	if len(evs) > 0 {
 		st["cycles-with-eviction"]++
 	}
